@@ -70,13 +70,13 @@ Definition apply_fsop (w : world) (o : fsop) : world :=
   match o with
   | FWrite p b =>
       let w1 := tick w in
-      match makedirs (w_fs w1) (dirname p) with
-      | inl fs1 =>
+      match makedirs_p (w_fs w1) (dirname p) with
+      | (fs1, None) =>
           match write_file fs1 p b None (w_clock w1) (w_nextid w1) with
           | inl fs2 => set_clock (w_clock w1) (N.succ (w_nextid w1)) (set_fs fs2 w1)
           | inr _ => set_fs fs1 w1
           end
-      | inr _ => w1
+      | (fs1, Some _) => set_fs fs1 w1
       end
   | FTouch p =>
       let w1 := tick w in
@@ -90,7 +90,7 @@ Definition apply_fsop (w : world) (o : fsop) : world :=
       | _ => w
       end
   | FRm p => match remove (w_fs w) p with inl fs' => set_fs fs' w | inr _ => w end
-  | FMkdir p => match makedirs (w_fs w) p with inl fs' => set_fs fs' w | inr _ => w end
+  | FMkdir p => set_fs (fst (makedirs_p (w_fs w) p)) w
   | FRmtree p => match p with [] => w | _ => set_fs (rmtree (w_fs w) p) w end
   | FCorruptCache p j =>
       match lookup (w_fs w) p with
